@@ -444,7 +444,7 @@ where
         shared.lock().unwrap().t0 = Some(t0);
         let app = Arc::new(Deltio::new());
         let svc = app.server_builder().into_service();
-        let api = Api { p: PublisherClient::new(svc.clone()), s: SubscriberClient::new(svc) };
+        let api = Api { p: PublisherClient::new(svc.clone()).max_decoding_message_size(1 << 30), s: SubscriberClient::new(svc).max_decoding_message_size(1 << 30) };
         let (topics, subs, push) = app.verif_parts();
         let ctx = Ctx { sh: shared.clone(), api, parts: Arc::new(Parts { topics, subs, push }), app: app.clone(), t0, max_steps: cfg.max_steps };
         if let Some(iv) = cfg.push_interval_ms {
